@@ -46,8 +46,8 @@ def r1_pairing(ctx):
                     continue
                 k, c = cs[0]
                 r = ret_of(p)
-                # error exit of `?`: nothing to pop
-                if r is not None and r[0] == "call" and name_is(r[2], "from_residual"):
+                # error exit (`?` or its explicit spelling): nothing to pop
+                if is_error_exit(p):
                     continue
                 n += 1
                 tail = p[k + 1:]
@@ -85,7 +85,7 @@ def r2_process_event(ctx):
             okv = decision_on(p, lambda t: t[0] == "discr" and t[1][0] == "arg" and t[1][2] == "event")
             ev = decision_on(p, lambda t: t[0] == "discr" and t[1][0] == "pl" and root_of(t[1])[0] == "arg" and root_of(t[1])[2] == "event")
             r = ret_of(p)
-            if r is not None and r[0] == "call" and name_is(r[2], "from_residual"):
+            if is_error_exit(p):
                 continue  # push failed: error returned, nothing else to do
             if okv == 0 and isinstance(ev, int):
                 var = event_variant(F, ev)
